@@ -69,6 +69,8 @@ def run(ctx) -> None:
 
     ctx.rule("C12.detach", "finite domain: add_metabolites copies a metabolite iff it belongs to a model that is not the reaction's (shared with C12)", floor=1)
     c12.check_foreign_copy_guard(ctx)
+    ctx.rule("C02.group", "finite evaluation: Group.add_members adds every given object, remove_members removes exactly those", floor=1)
+    ctx.guard(genesform.check_group_members, ctx, "C02.group")
     from . import stores
 
     ctx.rule("C02.derived", "T1: a value derived from an object's own state and kept on the object is dropped by every method of the class that changes that state", floor=6, hard=1)
